@@ -29,6 +29,7 @@ func init() {
 			witnessFamily("C11"),
 			{Name: "pairs", N: tierN(240, 6000), Run: c11Pairs},
 			{Name: "big", N: tierN(40, 120), Run: c11Big},
+			{Name: "hugeunion", N: func(string) int { return 1 }, Run: c11HugeUnion},
 			{Name: "seqlists", N: func(string) int { return 6 + 36 + 216 + 1296 }, Run: c11SeqLists},
 			{Name: "rand", N: tierN(150000, 8000000), Run: c11Random},
 		},
@@ -442,4 +443,47 @@ func c11SeqLists(c *Case) {
 		}
 	}
 	c.SampleEvery(97, func() interface{} { return map[string]interface{}{"family": "seqlists", "steps": list} })
+}
+
+// c11HugeUnion: unions with far more than 2^16 members whose identity keys vary (17 names, numbered text values):
+// an identity key of too few bits, or a table that degrades with size, loses nodes only here. The expected counts
+// are known by construction; every delivered node must be distinct.
+func c11HugeUnion(c *Case) {
+	rows, cols := 300, 300
+	if c.Tier == "thorough" {
+		rows, cols = 500, 400
+	}
+	d := xdoc.NewDoc()
+	r := d.Root.AddElem("", "r", "")
+	names := []string{"a", "b", "c", "d", "e", "f", "g", "h", "i", "j", "k", "l", "m", "n", "o", "p", "q"}
+	for i := 0; i < rows; i++ {
+		row := r.AddElem("", names[i%len(names)], "")
+		for j := 0; j < cols; j++ {
+			row.AddElem("", names[(i*7+j)%len(names)], "").AddText(fmt.Sprintf("t%d.%d", i, j%97))
+		}
+	}
+	d.Finish()
+	elems, texts := 1+rows+rows*cols, rows*cols
+	for _, ex := range []struct {
+		src  string
+		want int
+	}{{"//* | //text()", elems + texts}, {"//node() | //node()", elems + texts}, {"//text() | //*/*/..", texts + rows + 1}, {"/r/*/* | /r/* | /r", elems}} {
+		if c.Tier != "thorough" && ex.src == "//node() | //node()" {
+			continue // (1.1e8 navigator operations: thorough tier only)
+		}
+		ce := c.compile(ex.src, func() map[string]interface{} { return map[string]interface{}{} })
+		if ce == nil {
+			return
+		}
+		got := c.RunSelect(ce, d.Root)
+		gs, dup := AsSet(got.Nodes)
+		c.Count("hugeunion")
+		if got.Aborted() || dup || len(gs) != ex.want {
+			c.Violation("TWO-NODES-TREATED-AS-ONE", map[string]interface{}{"doc": fmt.Sprintf("<r> with %d rows of %d elements (17 names), one numbered text node each: %d elements, %d text nodes", rows, cols, elems, texts),
+				"expr": ex.src, "expected_count": ex.want, "observed_distinct": len(gs), "observed_deliveries": len(got.Nodes), "duplicates": dup, "abort": fmt.Sprint(got.Panic.String(), got.Budget)})
+			return
+		}
+		c.Nontrivial("hugeunion|" + ex.src)
+	}
+	c.Sample(map[string]interface{}{"family": "hugeunion", "nodes": elems + texts + 1})
 }
